@@ -374,3 +374,132 @@ def normalizeargs(rep, dmod, rule):
               'interfaces / Implements are appended as is, other sequences are '
               'flattened in place, forward' if not probs else
               {'problems': sorted(set(probs))[:3]}, node=f)
+
+
+# ---------------------------------------------------------------------------
+# C01: _classImplements_ordered
+
+ELIDE = ('[$x for $x in %s if not spec.isOrExtends($x) or '
+         '($x is Interface and not spec.declared)]')
+ELIDE2 = ('[$x for $x in %s if not spec.isOrExtends($x) or '
+          '(not spec.declared and $x is Interface)]')
+
+
+def class_ordered(rep, mod, rule, rule_elide):
+    f = find_def(mod, '_classImplements_ordered')
+    site = 'declarations._classImplements_ordered'
+    p_last, p_bases, p_decl = [], [], []
+    p_el = {'before': [], 'after': []}
+    kinds = set()
+    ss = normal(summaries(f))
+    rep.require(bool(ss), '_classImplements_ordered has no normal path')
+    for ps in ss:
+        # -- last event
+        stores = [e for e in ps.events if e.kind == 'store']
+        sd = [e for e in stores if nt(e.r) == 'spec.declared']
+        sb = [e for e in stores if nt(e.r) == 'spec.__bases__']
+        if len(sd) != 1 or len(sb) != 1 or ps.events[-1] is not sb[0] or \
+                ps.index(sd[0]) > ps.index(sb[0]):
+            p_last.append('declared stores %d, __bases__ stores %d, last event `%s`'
+                          % (len(sd), len(sb), repr(ps.events[-1])[:50]))
+            continue
+        if nt(sd[0].val) not in ('tuple([])',):
+            p_decl.append('declared = `%s`' % nt(sd[0].val)[:50])
+        if nt(sb[0].val) not in ('tuple([])',):
+            p_bases.append('__bases__ = `%s`' % nt(sb[0].val)[:50])
+        # -- the three sources
+        outer = [c for c, t, p in ps.order if c.startswith('ITER((') or c.startswith('ITER([')]
+        if not outer:
+            p_decl.append('no walk over (before, declared, after)')
+            continue
+        T = _parse(outer[0][5:-1])
+        if not isinstance(T, (ast.Tuple, ast.List)) or len(T.elts) != 3 or \
+                nt(T.elts[1]) != 'spec.declared':
+            p_decl.append('walks `%s`' % outer[0][5:80])
+            continue
+        for var, el in (('before', T.elts[0]), ('after', T.elts[2])):
+            e = el
+            if isinstance(e, ast.Call) and dotted(e.func) in ('tuple', 'list') and e.args:
+                e = e.args[0]
+            if match(ELIDE % var, e) is None and match(ELIDE2 % var, e) is None:
+                p_el[var].append('`%s`' % norm_src(el)[:120])
+        Ttxt = nt(T)
+        if not [t for c, t, p in ps.order if c == 'ITER(%s)' % Ttxt and t]:
+            continue
+        inner = 'EACH(%s)' % Ttxt
+        E = 'EACH(%s)' % inner
+        apps = [nt(e.r) for e in ps.events if e.kind == 'call' and
+                isinstance(e.r.func, ast.Attribute) and
+                e.r.func.attr in ('append', 'add', 'insert', 'extend')
+                and ps.index(e) < ps.index(sd[0])]
+        if inner in iterated(ps):
+            seen = fact_cmp(ps, E, 'set()', 'in')
+            if seen is None:
+                p_decl.append('duplicates are not tested')
+            elif seen:
+                kinds.add('dup')
+                if apps:
+                    p_decl.append('a duplicate is declared again')
+            else:
+                kinds.add('new')
+                if sorted(apps) != sorted(['[].append(%s)' % E, 'set().add(%s)' % E]):
+                    p_decl.append('a new interface is not declared/recorded: %s'
+                                  % [a[:40] for a in apps])
+            extra = [c for c in each_conditions(ps, Ttxt)
+                     if c not in ('%s in set()' % E,)]
+            if extra:
+                p_decl.append('also depends on %s' % extra[0][:60])
+        # -- inherited part
+        inh = fact_cmp(ps, 'spec.inherit', 'None')
+        SRC = 'spec.inherit.__bases__'
+        IB = 'implementedBy(EACH(%s))' % SRC
+        late = [nt(e.r) for e in ps.events if e.kind == 'call' and
+                isinstance(e.r.func, ast.Attribute) and
+                e.r.func.attr in ('append', 'add', 'insert', 'extend')
+                and ps.index(e) > ps.index(sd[0])]
+        if inh is None:
+            p_bases.append('spec.inherit is not consulted')
+        elif inh:
+            if late or SRC in iterated(ps):
+                p_bases.append('bases extended although nothing is inherited')
+        elif SRC in iterated(ps):
+            seen = fact_cmp(ps, IB, 'set()', 'in')
+            if seen is None:
+                p_bases.append('inherited specification not tested against the '
+                               'declared ones')
+            elif seen:
+                kinds.add('inh-dup')
+                if late:
+                    p_bases.append('a duplicate base is appended')
+            else:
+                kinds.add('inh-new')
+                if sorted(late) != sorted(['[].append(%s)' % IB, 'set().add(%s)' % IB]):
+                    p_bases.append('the specification of a base class is not '
+                                   'appended: %s' % [a[:50] for a in late])
+    for lp in walk_local(f):
+        if isinstance(lp, ast.For):
+            b, d = iter_polarity(lp.iter, f)
+            if d != 'fwd':
+                p_decl.append('`%s` walked backwards' % norm_src(lp.iter)[:40])
+            if [n for n in walk_local(lp) if isinstance(n, (ast.Break, ast.Return))]:
+                p_decl.append('early exit from a walk')
+    if not (p_decl or p_bases or p_last) and kinds != {'dup', 'new', 'inh-dup', 'inh-new'}:
+        p_decl.append('path kinds %s' % sorted(kinds))
+    rep.check(rule, site, not p_last,
+              'declared is stored, and the __bases__ store (which recomputes and '
+              'notifies) is the last effect on every path' if not p_last else
+              {'problems': sorted(set(p_last))[:3]}, construct='bases-last', node=f)
+    rep.check(rule, site, not p_bases,
+              'bases = declared interfaces followed by the specifications of the '
+              'class\'s bases (in order) when inheritance applies' if not p_bases
+              else {'problems': sorted(set(p_bases))[:3]}, construct='bases-value', node=f)
+    rep.check(rule, site, not p_decl,
+              'declared = before + previously declared + after without duplicates'
+              if not p_decl else {'problems': sorted(set(p_decl))[:3]},
+              construct='declared-value', node=f)
+    for var in ('before', 'after'):
+        rep.check(rule_elide, site, not p_el[var],
+                  '%s: an interface is elided only when the class already implies '
+                  'it (spec.isOrExtends), with the documented root exception' % var
+                  if not p_el[var] else {'filter': sorted(set(p_el[var]))[:2]},
+                  construct='elide:' + var, node=f)
